@@ -439,6 +439,23 @@ def spec_reads_walrus_of_value(x):
 @icontract.require(lambda x, s: f"{x!r:>{s}}" == "" or f"{x!s}{x!a}" == "")
 def conversions(x, s):
     pass
+_K__only_mangled = 3
+class K:
+    def __repr__(self):
+        return "K()"
+    @icontract.require(lambda self, x: x < __only_mangled)
+    def private_global_only_mangled(self, x):
+        pass
+    @icontract.require(lambda self, __x: __x > 0)
+    def private_parameter(self, __x):
+        pass
+    limit = 3
+    @icontract.require(lambda self, xs: (__t := self.limit) and all(x < __t for x in xs))
+    def private_walrus_read_in_comprehension(self, xs):
+        pass
+@icontract.require(lambda xs: [(m := x) for x in xs] and [(m := m + y) for y in xs] == [])
+def read_and_rebind_walrus_target(xs):
+    pass
 # closures with a cell that is still empty when the contract is violated (the enclosing function assigns it later); a module
 # global bears the name of the closure variable which IS bound
 threshold = 1000
@@ -472,6 +489,10 @@ PRIVATE_CASES = [
     ("callable_equal_to_all", lambda ns: ns["callable_equal_to_all"](ns["AnyCallable"](), [1, -1]),
      {"f(x > 0 for x in xs)": "[]", "xs": "[1, -1]", "f": "AnyCallable()"}),
     ("spec_reads_walrus_of_value", lambda ns: ns["spec_reads_walrus_of_value"](3), {"x": "3", 'f"{(w := x):{w}}"': "'  3'"}),
+    ("private_global_only_mangled", lambda ns: ns["K"]().private_global_only_mangled(5), {"__only_mangled": "3", "x": "5", "self": "K()"}),
+    ("private_parameter", lambda ns: ns["K"]().private_parameter(-1), {"__x": "-1", "self": "K()"}),
+    ("private_walrus_read_in_comprehension", lambda ns: ns["K"]().private_walrus_read_in_comprehension([1, 5]), {"__t": "3", "xs": "[1, 5]", "self.limit": "3"}),
+    ("read_and_rebind_walrus_target", lambda ns: ns["read_and_rebind_walrus_target"]([1, 2]), {"xs": "[1, 2]", "[(m := x) for x in xs]": "[1, 2]"}),
     ("closure_with_empty_cell_before", lambda ns: ns["make_closure"](True)[0](), {"threshold": "10", "x": "50"}),
     ("closure_with_empty_cell_after", lambda ns: ns["make_closure"](False)[0](), {"threshold": "10", "x": "50"}),
     ("conversions", lambda ns: ns["conversions"]("é", 5), {"x": "'é'", "s": "5", 'f"{x!r:>{s}}"': "\"  'é'\"", 'f"{x!s}{x!a}"': "\"é'\\\\xe9'\""}),
@@ -500,6 +521,9 @@ def check_private(acc):
                     if " was " in ln:
                         t, v = ln.rsplit(" was ", 1)
                         lines[t.split(": ")[-1].strip()] = v.strip()
+                for t in lines:
+                    if t.startswith("_K__") or t.startswith("_C__"):
+                        bad = ("wrong_value_shown", "{!r} is listed, which is not a text of the condition: {!r}".format(t, str(out[1])))
                 for t, v in want.items():
                     if t not in lines:
                         bad = ("evaluated_subexpression_not_listed", "{!r} (= {}) is not listed in {!r}".format(t, v, str(out[1])))
